@@ -169,6 +169,13 @@ var classTable = []classDef{
 		return out
 	}},
 	{"allowedfast.in0", func(e env) []byte { return frame(17, u32s(0)) }},
+	{"allowedfast.all", func(e env) []byte { // every piece is granted: whatever the picker takes first is an allowed-fast download
+		var out []byte
+		for i := 0; i < e.N; i++ {
+			out = append(out, frame(17, u32s(uint32(i)))...)
+		}
+		return out
+	}},
 	{"allowedfast.oob", func(e env) []byte { return frame(17, u32s(uint32(e.N))) }},
 	{"allowedfast.max", func(e env) []byte { return frame(17, u32s(maxU32)) }},
 	// ---- extension protocol
